@@ -87,7 +87,10 @@ pub(crate) fn get_workbook_xml(workbook: &Workbook, selected_sheet: u32) -> Stri
         let name = escape_xml(name);
         let local_sheet_id = if let Some(sheet_id) = defined_name.sheet_id {
             // In Excel the localSheetId is actually the index of the sheet.
-            let excel_local_sheet_id = sheet_id_to_sheet_index.get(&sheet_id).unwrap();
+            let Some(excel_local_sheet_id) = sheet_id_to_sheet_index.get(&sheet_id) else {
+                // local to a sheet that has been deleted: not part of the workbook
+                continue;
+            };
             format!(" localSheetId=\"{excel_local_sheet_id}\"")
         } else {
             "".to_string()
